@@ -66,6 +66,14 @@ def fvResult (st : FvState) (location : Nat) : List Piece :=
 
 def ferr (k : FErr) (loc : Nat) : Err := ⟨.fstring k, loc⟩
 
+/-- `StringParser::merge_constants` (applied by `parse_spec` to its result): adjacent string
+    constants are joined and empty ones dropped; `cur` is the pending text (`current`) -/
+def mergeConstants : List Nat → List Piece → List Piece
+  | cur, [] => if cur.isEmpty then [] else [.lit cur]
+  | cur, .lit s :: ps => mergeConstants (cur ++ s) ps
+  | cur, .field t o c sp :: ps =>
+    (if cur.isEmpty then [] else [.lit cur]) ++ .field t o c sp :: mergeConstants [] ps
+
 mutual
 
 /-- the `while let Some(ch) = self.next_char()` loop of `parse_formatted_value(nested)`;
@@ -139,7 +147,8 @@ def fvLoop (lookup : List Nat → Option Nat) (kind : Kind) :
     else fvLoop lookup kind fuel nested location { st with expr := st.expr ++ [ch] } cs loc
 
 /-- the `while let Some(&next) = self.peek()` loop of `parse_spec(nested)`;
-    `acc` = `spec_constructor`, `piece` = `constant_piece` -/
+    `acc` = `spec_constructor`, `piece` = `constant_piece`; the result goes through
+    `merge_constants` -/
 def specLoop (lookup : List Nat → Option Nat) (kind : Kind) :
     Nat → Nat → List Piece → List Nat → List Nat → Nat → Except Err (List Piece × List Nat × Nat)
   | 0, _, _, _, _, loc => .error ⟨.panic, loc⟩
@@ -147,13 +156,13 @@ def specLoop (lookup : List Nat → Option Nat) (kind : Kind) :
     let flush (acc : List Piece) (piece : List Nat) : List Piece :=
       if piece.isEmpty then acc else acc ++ [.lit piece]
     match cs with
-    | [] => .ok (flush acc piece, [], loc)
+    | [] => .ok (mergeConstants [] (flush acc piece), [], loc)
     | c :: cs' =>
       if c = 123 then
         match fstringLoop lookup kind fuel (nested + 1) [] [] cs loc with
         | .error e => .error e
         | .ok (ps, rest, loc') => specLoop lookup kind fuel nested (flush acc piece ++ ps) [] rest loc'
-      else if c = 125 then .ok (flush acc piece, cs, loc)
+      else if c = 125 then .ok (mergeConstants [] (flush acc piece), cs, loc)
       else if c = 92 ∧ ¬ kind.isRaw then
         if cs'.head? = some 123 ∨ cs'.head? = some 125 then
           specLoop lookup kind fuel nested acc (piece ++ [92]) cs' (loc + 1)
